@@ -1,5 +1,5 @@
 SPECIFICATION Spec
-CONSTANTS Growth = 3 Mode = "bytes" MaxBits = 0 Wide = TRUE
+CONSTANTS Growth = 3 Mode = "bytes" MaxBits = 0 Wide = TRUE Lean = FALSE
 INVARIANT RoundTrip
 INVARIANT LengthInBLS
 INVARIANT WholeBytes
